@@ -12,7 +12,7 @@
       reader) to entries that agree and decode alike; instance with the AES-256 / Camellia-256 models.
    4. split_then_decode: the entries read back from the parts `pna split` writes decode as the originals. *)
 From PNA Require Import Base Crc32 Name Codec Chunk Archive Entry Flatten Cbc Ctr Pipeline
-  BaseFacts ChunkFacts ArchiveFacts EntryFacts FlattenFacts CbcFacts CtrFacts StreamFacts PipelineFacts.
+  BaseFacts ChunkFacts ArchiveFacts PiecesFacts EntryFacts FlattenFacts CbcFacts CtrFacts StreamFacts PipelineFacts.
 From PNA Require Import Wf WfFacts WfWriterFacts WfAgreeFacts WfSplitFacts.
 From PNA Require Split SplitFacts.
 From PNA Require Import Aes Camellia AesFacts CamelliaFacts PipelineRealFacts PipelineRun.
@@ -974,7 +974,7 @@ Lemma entry_same_normalize e : entry_same e (normalize_entry e).
 Proof.
   destruct e as [n|s]; cbn [normalize_entry]; [|apply entry_same_refl].
   cbn [entry_same normalize n_hdr n_phsf n_extra n_data n_meta n_xattrs]. repeat split.
-  symmetry. exact (concat_filter_ne (n_data n)).
+  symmetry. exact (cutN_concat CMAX (n_data n) CMAX_pos).
 Qed.
 Lemma Forall2_entry_same_normalize : forall ents xs, Forall2 entry_same (map normalize_entry ents) xs -> Forall2 entry_same ents xs.
 Proof.
